@@ -6,6 +6,7 @@ import (
 	"go/constant"
 	"go/token"
 	"go/types"
+	"sort"
 	"strings"
 
 	"golang.org/x/tools/go/ssa"
@@ -3531,4 +3532,860 @@ func ruleNestedCallDepth(c *Ctx) {
 	}
 	c.Sites++
 	c.check(okc, R, "callR:nested-call-depth-bounded", pos, "callR raises when Sp() exceeds a constant, before the nested loop runs", "callR enters a nested interpreter loop at any call-stack depth: with a very large CallStackSize, recursion through pcall (or a metamethod, or an iterator) overflows the Go stack — a fatal error no recover catches — long before the configured limit is reached")
+}
+
+// ruleSmallArithmeticGuards: F108–F110. (a) the flags of an unsigned conversion: LNumber.Format does not
+// hand the raw fmt.State to package fmt for %o/%x/%X, and the wrapper's Flag method answers false for
+// '+' and ' ' (evaluated); (b) luaIndex2StringIndex subtracts 1 only from a position known to be positive
+// (the decrement of -2^63 wraps); (c) the arguments of rand.Intn / rand.Int63n are known positive where
+// they are called (a span that overflowed int64 panics inside math/rand).
+func ruleSmallArithmeticGuards(c *Ctx) {
+	const R = "R15-flags"
+	p := c.P
+	p.computeNoReturn()
+	if nf, df := p.Fn("lua", "(LNumber).Format"), p.Fn("lua", "defaultFormat"); nf != nil && df != nil {
+		var verb, st *ssa.Parameter
+		for _, pm := range nf.Params {
+			if b, ok := pm.Type().Underlying().(*types.Basic); ok && b.Kind() == types.Int32 {
+				verb = pm
+			}
+			if typeName(pm.Type()) == "fmt.State" {
+				st = pm
+			}
+		}
+		if verb != nil && st != nil {
+			okc, n := true, 0
+			for _, v := range []rune{'o', 'x', 'X'} {
+				reach := reachGiven(nf, func(x ssa.Value) (aval, bool) {
+					if x == ssa.Value(verb) {
+						return aInt(int64(v)), true
+					}
+					return aval{}, false
+				})
+				for _, cl := range callsTo(nf, df) {
+					if !reach[cl] {
+						continue
+					}
+					n++
+					if stripMI(cl.Call.Args[1]) == ssa.Value(st) {
+						okc = false
+					}
+				}
+			}
+			c.Sites++
+			c.check(n > 0 && okc, R, "LNumber.Format:unsigned-conversions-hide-the-sign-flags", p.pos(nf.Pos()), "for %o/%x/%X package fmt sees the flags through a wrapper", "LNumber.Format hands the directive's own flag set to package fmt for an unsigned conversion: fmt honours '+' and ' ' there (%+x of 255 prints +ff) and prefixes a zero under '#' (%#x of 0 prints 0x0); C does neither")
+		}
+	}
+	if fl := p.Fn("lua", "(unsignedState).Flag"); fl != nil {
+		var cp *ssa.Parameter
+		for _, pm := range fl.Params {
+			if b, ok := pm.Type().Underlying().(*types.Basic); ok && b.Kind() == types.Int {
+				cp = pm
+			}
+		}
+		okc := cp != nil
+		for _, ch := range []int64{'+', ' '} {
+			if cp == nil {
+				break
+			}
+			reach := reachGiven(fl, func(x ssa.Value) (aval, bool) {
+				if x == ssa.Value(cp) {
+					return aInt(ch), true
+				}
+				return aval{}, false
+			})
+			allInstrs(fl, func(in ssa.Instruction) {
+				ret, ok := in.(*ssa.Return)
+				if !ok || !reach[in] {
+					return
+				}
+				if b, isK := constBool(ret.Results[0]); !isK || b {
+					okc = false
+				}
+			})
+		}
+		c.Sites++
+		c.check(okc, R, "unsignedState.Flag:no-sign-flags", p.pos(fl.Pos()), "Flag('+') and Flag(' ') are false", "the flag set presented to package fmt for unsigned conversions still contains a sign flag")
+	} else {
+		c.bad(R, "unsignedState.Flag:no-sign-flags", "-", "the flag wrapper for unsigned conversions no longer exists")
+	}
+	if fn := p.Fn("lua", "luaIndex2StringIndex"); fn != nil {
+		g := p.G(fn)
+		okc, n := true, 0
+		var where ssa.Instruction
+		allInstrs(fn, func(in ssa.Instruction) {
+			b, ok := in.(*ssa.BinOp)
+			if !ok || b.Op != token.SUB {
+				return
+			}
+			if k, isK := constInt(b.Y); !isK || k != 1 {
+				return
+			}
+			n++
+			_, lo, _, hasLo := bounds(g, in, b.X)
+			if !hasLo || lo < 1 {
+				okc = false
+				where = in
+			}
+		})
+		pos := p.pos(fn.Pos())
+		if where != nil {
+			pos = p.ipos(where)
+		}
+		c.Sites++
+		c.check(n > 0 && okc, "R15-positions", "luaIndex2StringIndex:decrement-only-of-a-positive-position", pos, "1 is subtracted only where the position is known to be >= 1", "luaIndex2StringIndex decrements a position that may be negative: -2^63 wraps to 2^63-1, ('abc'):sub(-2^63) returns '' instead of 'abc'")
+	}
+	if fn := p.Fn("lua", "mathRandom"); fn != nil {
+		g := p.G(fn)
+		okc, n := true, 0
+		var where ssa.Instruction
+		allInstrs(fn, func(in ssa.Instruction) {
+			pk, name, ok := stdCall(in)
+			if !ok || pk != "math/rand" || !(strings.HasSuffix(name, "Intn") || strings.HasSuffix(name, "Int63n") || strings.HasSuffix(name, "Int31n")) {
+				return
+			}
+			n++
+			args := in.(*ssa.Call).Call.Args
+			_, lo, _, hasLo := bounds(g, in, args[len(args)-1])
+			if !hasLo || lo < 1 {
+				okc = false
+				if where == nil {
+					where = in
+				}
+			}
+		})
+		pos := p.pos(fn.Pos())
+		if where != nil {
+			pos = p.ipos(where)
+		}
+		c.Sites++
+		c.check(n >= 2 && okc, "R15-mathmap", "mathRandom:generator-called-with-a-positive-bound", pos, fmt.Sprintf("%d bounded draws, each with a bound known to be >= 1", n), "math.random calls the generator with a bound that is not known to be positive on that path (the empty-interval test is missing or too weak): math/rand panics for n <= 0 instead of the library raising 'interval is empty'")
+	}
+}
+
+// ruleLocalAccessorsAgree: C17f / F111. debug.setlocal "changes exactly that variable": GetLocal and
+// SetLocal address the same register — the index they hand to the registry is the same expression over
+// (frame.LocalBase, no). And a variable is in scope from the first instruction of its range: LocalName
+// compares StartPc <= pc.
+func ruleLocalAccessorsAgree(c *Ctx) {
+	const R = "R17-scope"
+	p := c.P
+	get, set := c.need(R, "lua", "(*LState).GetLocal"), c.need(R, "lua", "(*LState).SetLocal")
+	rget, rset := p.Fn("lua", "(*registry).Get"), p.Fn("lua", "(*registry).Set")
+	if get != nil && set != nil && rget != nil && rset != nil {
+		norm := func(fn *ssa.Function, v ssa.Value) string {
+			l := lin(v)
+			var parts []string
+			for k, co := range l.T {
+				for i, pm := range fn.Params {
+					k = strings.ReplaceAll(k, "p:"+pm.Name()+")", fmt.Sprintf("p#%d)", i))
+					if k == "p:"+pm.Name() {
+						k = fmt.Sprintf("p#%d", i)
+					}
+				}
+				parts = append(parts, fmt.Sprintf("%+d*%s", co, k))
+			}
+			sort.Strings(parts)
+			return strings.Join(parts, " ") + fmt.Sprintf(" %+d", l.K)
+		}
+		var gi, si string
+		for _, cl := range callsTo(get, rget) {
+			gi = norm(get, cl.Call.Args[1])
+		}
+		for _, cl := range callsTo(set, rset) {
+			si = norm(set, cl.Call.Args[1])
+		}
+		c.Sites++
+		c.check(gi != "" && gi == si, R, "GetLocal≡SetLocal:same-register", p.pos(set.Pos()), "both address "+gi, fmt.Sprintf("GetLocal reads register [%s] but SetLocal writes register [%s]: in a frame whose LocalBase is not Base+1 (a vararg function that received arguments) debug.setlocal returns the variable's name and changes another slot", gi, si))
+	}
+	if fn := c.need(R, "lua", "(*LFunction).LocalName"); fn != nil {
+		spF := p.Field("lua", "DbgLocalInfo", "StartPc")
+		var pcParam *ssa.Parameter
+		ints := paramsOfType(fn, "int")
+		if len(ints) >= 2 {
+			pcParam = ints[1]
+		}
+		okc, n := true, 0
+		allInstrs(fn, func(in ssa.Instruction) {
+			b, ok := in.(*ssa.BinOp)
+			if !ok || pcParam == nil {
+				return
+			}
+			_, lx := loadsField(b.X, spF)
+			_, ly := loadsField(b.Y, spF)
+			if !(lx && b.Y == ssa.Value(pcParam)) && !(ly && b.X == ssa.Value(pcParam)) {
+				return
+			}
+			n++
+			op := b.Op
+			if ly {
+				op = flipOp(op)
+			}
+			// StartPc op pc, used as "in scope" (the loop continues while true): inclusive forms only
+			if op == token.LSS || op == token.GEQ {
+				okc = false
+			}
+		})
+		c.Sites++
+		c.check(n > 0 && okc, R, "LocalName:scope-starts-at-StartPc", p.pos(fn.Pos()), "StartPc <= pc", "LocalName treats a variable as out of scope at the instruction whose index equals its StartPc (strict comparison): a parameter is '(*temporary)' for a debug.getlocal made from the function's first instruction, a local for one made from the instruction right after its declaration")
+	}
+}
+
+func flipOp(op token.Token) token.Token {
+	switch op {
+	case token.LSS:
+		return token.GTR
+	case token.LEQ:
+		return token.GEQ
+	case token.GTR:
+		return token.LSS
+	case token.GEQ:
+		return token.LEQ
+	}
+	return op
+}
+
+// ruleSearchStartClamped: C14f. string.find/match start at min(init, len+1): an explicit init beyond the
+// end still finds a pattern that matches the empty string at the end ("x*" at 4 in "abc") and never
+// slices past the subject. Every offset that strFind/strMatch hand to pm.Find, and every lower bound they
+// slice the subject with, is either the result of the clamping helper luaIndex2StringIndex or bounded by
+// len(str) on the path.
+func ruleSearchStartClamped(c *Ctx) {
+	const R = "R15-positions"
+	p := c.P
+	helper := p.Fn("lua", "luaIndex2StringIndex")
+	find := p.Fn("pm", "Find")
+	if helper == nil || find == nil {
+		c.und(R, "search-start-clamped", "-", "luaIndex2StringIndex or pm.Find not found")
+		return
+	}
+	for _, name := range []string{"strFind", "strMatch"} {
+		fn := c.need(R, "lua", name)
+		if fn == nil {
+			continue
+		}
+		g := p.G(fn)
+		clamped := func(at ssa.Instruction, v ssa.Value) bool {
+			v = stripConv(v)
+			var fromHelper func(v ssa.Value, d int) bool
+			fromHelper = func(v ssa.Value, d int) bool {
+				if d > 3 {
+					return false
+				}
+				if cl, ok := v.(*ssa.Call); ok {
+					return cl.Call.StaticCallee() == helper
+				}
+				if ph, ok := v.(*ssa.Phi); ok {
+					for _, e := range ph.Edges {
+						if !fromHelper(stripConv(e), d+1) {
+							return false
+						}
+					}
+					return len(ph.Edges) > 0
+				}
+				return false
+			}
+			if fromHelper(v, 0) {
+				return true
+			}
+			for _, cd := range g.expandAnd(g.CondsAtInstr(at)) {
+				b, ok := cd.V.(*ssa.BinOp)
+				if !ok {
+					continue
+				}
+				op := b.Op
+				if !cd.Sense {
+					op = negate(op)
+				}
+				x, y := stripConv(b.X), stripConv(b.Y)
+				if y == v {
+					x, y = y, x
+					op = flipOp(op)
+				}
+				if x != v || (op != token.LEQ && op != token.LSS) {
+					continue
+				}
+				if lc, ok := y.(*ssa.Call); ok {
+					if bi, ok := lc.Call.Value.(*ssa.Builtin); ok && bi.Name() == "len" {
+						return true
+					}
+				}
+			}
+			return false
+		}
+		n, okc := 0, true
+		var where ssa.Instruction
+		for _, cl := range callsTo(fn, find) {
+			n++
+			if !clamped(cl, cl.Call.Args[2]) {
+				okc, where = false, cl
+			}
+		}
+		allInstrs(fn, func(in ssa.Instruction) {
+			sl, ok := in.(*ssa.Slice)
+			if !ok || sl.Low == nil || sl.High != nil || !g.Live(in) {
+				return // the tail of the subject, str[init:]; slices between capture positions are not starts
+			}
+			if b, ok := sl.X.Type().Underlying().(*types.Basic); !ok || b.Info()&types.IsString == 0 {
+				return
+			}
+			if _, isK := constInt(sl.Low); isK {
+				return
+			}
+			n++
+			if !clamped(in, sl.Low) {
+				okc, where = false, in
+			}
+		})
+		pos := p.pos(fn.Pos())
+		if where != nil {
+			pos = p.ipos(where)
+		}
+		c.Sites++
+		c.check(n > 0 && okc, R, name+":search-start-clamped-to-the-subject", pos, fmt.Sprintf("%d start offsets, each clamped by luaIndex2StringIndex or bounded by len(str)", n), name+" starts the search at an offset that is not clamped to the length of the subject: string.find('abc', 'x*', 10) finds nothing where the reference matches the empty string at 4, and a plain find slices past the end (Go slice-bounds panic surfacing as an error)")
+	}
+}
+
+// ruleNumeralTextUnfiltered: C15f. What is a numeral is decided by parseNumber alone (leading blanks, an
+// explicit '+', '.5', '0x…'): no caller decides by looking at the text itself whether the reader is
+// consulted at all — a "fast path" on the first byte silently narrows the numeral syntax for that one
+// caller (string.format('%x', '+255') prints the text).
+func ruleNumeralTextUnfiltered(c *Ctx) {
+	const R = "R16-onereader"
+	p := c.P
+	pn := c.need(R, "lua", "parseNumber")
+	if pn == nil {
+		return
+	}
+	n := 0
+	for _, fn := range p.srcFuncs {
+		if fn.Pkg == nil || fn.Pkg.Pkg.Path() != luaPath || fn == pn {
+			continue
+		}
+		calls := callsTo(fn, pn)
+		if len(calls) == 0 {
+			continue
+		}
+		g := p.G(fn)
+		for i, cl := range calls {
+			n++
+			text := stripConv(cl.Call.Args[0])
+			if ct, ok := text.(*ssa.ChangeType); ok {
+				text = ct.X
+			}
+			var bad ssa.Value
+			for _, cd := range g.expandAnd(g.CondsAtInstr(cl)) {
+				var looks func(v ssa.Value, d int) bool
+				looks = func(v ssa.Value, d int) bool {
+					if d > 6 {
+						return false
+					}
+					switch x := v.(type) {
+					case *ssa.Lookup:
+						base := stripConv(x.X)
+						if ct, ok := base.(*ssa.ChangeType); ok {
+							base = ct.X
+						}
+						return base == text
+					case *ssa.Call:
+						if bi, ok := x.Call.Value.(*ssa.Builtin); ok && bi.Name() == "len" {
+							base := stripConv(x.Call.Args[0])
+							if ct, ok := base.(*ssa.ChangeType); ok {
+								base = ct.X
+							}
+							return base == text
+						}
+						return false
+					}
+					if in, ok := v.(ssa.Instruction); ok {
+						for _, op := range in.Operands(nil) {
+							if *op != nil && looks(*op, d+1) {
+								return true
+							}
+						}
+					}
+					return false
+				}
+				if looks(cd.V, 0) {
+					bad = cd.V
+				}
+			}
+			c.Sites++
+			c.check(bad == nil, R, fmt.Sprintf("%s:numeral-text-reaches-the-reader-unfiltered#%d", fname(fn), i+1), p.ipos(cl), "whether parseNumber is consulted does not depend on the text", fname(fn)+" looks at the text (its length or a byte of it) before deciding whether to hand it to parseNumber: numerals the reader accepts but the pre-check does not — ' 42', '+255' — are not converted here while tonumber and arithmetic convert them")
+		}
+	}
+	if n < 5 {
+		c.und(R, "numeral-text-reaches-the-reader-unfiltered", "-", fmt.Sprintf("only %d calls of parseNumber found", n))
+	}
+}
+
+// ruleWeekNumberFloor: C16f. %U and %W are floor((yday + 7 - wday') / 7): the dividend is never negative
+// (Go's integer division truncates toward zero, so a formula whose dividend can be negative maps the days
+// before the year's first Sunday/Monday to week 01 instead of 00). Every division by 7 in strftime has a
+// dividend whose linear form carries a constant of at least +6 against the subtracted weekday term.
+func ruleWeekNumberFloor(c *Ctx) {
+	const R = "R16-strftime"
+	p := c.P
+	fn := c.need(R, "lua", "strftime")
+	if fn == nil {
+		return
+	}
+	n, okc := 0, true
+	var where ssa.Instruction
+	allInstrs(fn, func(in ssa.Instruction) {
+		b, ok := in.(*ssa.BinOp)
+		if !ok || b.Op != token.QUO {
+			return
+		}
+		if k, isK := constInt(b.Y); !isK || k != 7 {
+			return
+		}
+		n++
+		// dividend = YearDay() - 1 + 7 - wd with wd in 0..6: lowest value YearDay()-1+1 >= 1 … in general
+		// the constant must make up for the largest weekday term (6) and the -1 of the zero-based day
+		l := lin(b.X)
+		neg := int64(0)
+		for _, co := range l.T {
+			if co < 0 {
+				neg += -co * 6 // each subtracted term is a weekday number 0..6
+			}
+		}
+		// YearDay() >= 1 contributes at least +1
+		if 1+l.K-neg < 0 {
+			okc = false
+			if where == nil {
+				where = in
+			}
+		}
+	})
+	pos := p.pos(fn.Pos())
+	if where != nil {
+		pos = p.ipos(where)
+	}
+	c.Sites++
+	c.check(n >= 2 && okc, R, "strftime:week-number-dividend-never-negative", pos, fmt.Sprintf("%d divisions by 7, none with a dividend that can be negative", n), "a week-of-year directive divides a value that can be negative by 7: Go truncates toward zero, so the days of January before the year's first Sunday (%U) or Monday (%W) are rendered as week 01 instead of 00")
+}
+
+// ruleReturnPadding: C02f. A function that returns k values to a caller that wants n of them leaves
+// nil in the n-k missing ones ("padded with nil when too few"). copyReturnValues gets n (wanted) and
+// b = k+1: the nil fill runs exactly when n > b-1. The comparison between the two parameters is
+// normalised to n - b + K > 0 and K must be 1 (K = 0 skips the padding for a caller that wants exactly
+// one value more than was returned: `local a, b = f()` sees the callee's next register in b).
+func ruleReturnPadding(c *Ctx) {
+	const R = "R02-frames"
+	p := c.P
+	fn := c.need(R, "lua", "copyReturnValues")
+	if fn == nil {
+		return
+	}
+	ints := paramsOfType(fn, "int")
+	if len(ints) < 4 {
+		c.und(R, "copyReturnValues:pads-when-fewer-than-wanted", p.pos(fn.Pos()), "parameters not identified")
+		return
+	}
+	nP, bP := ints[len(ints)-2], ints[len(ints)-1]
+	found, okc := 0, true
+	var where ssa.Instruction
+	allInstrs(fn, func(in ssa.Instruction) {
+		b, ok := in.(*ssa.BinOp)
+		if !ok {
+			return
+		}
+		op := b.Op
+		if op != token.GTR && op != token.GEQ && op != token.LSS && op != token.LEQ {
+			return
+		}
+		lx, ly := lin(b.X), lin(b.Y)
+		// d = X - Y
+		d := linform{T: map[string]int64{}, K: lx.K - ly.K}
+		for k, v := range lx.T {
+			d.T[k] += v
+		}
+		for k, v := range ly.T {
+			d.T[k] -= v
+		}
+		for k, v := range d.T {
+			if v == 0 {
+				delete(d.T, k)
+			}
+		}
+		kn, kb := leafKey(nP), leafKey(bP)
+		if len(d.T) != 2 || d.T[kn]*d.T[kb] != -1 {
+			return
+		}
+		// orient to n - b + K (op) 0
+		K := d.K
+		if d.T[kn] == -1 {
+			K = -K
+			op = flipOp(op)
+		}
+		found++
+		// n - b + K > 0 wanted with K == 1; n - b + K >= 0 with K == 0
+		good := (op == token.GTR && K == 1) || (op == token.GEQ && K == 0)
+		if !good {
+			okc = false
+			if where == nil {
+				where = in
+			}
+		}
+	})
+	pos := p.pos(fn.Pos())
+	if where != nil {
+		pos = p.ipos(where)
+	}
+	c.Sites++
+	c.check(found > 0 && okc, R, "copyReturnValues:pads-when-fewer-than-wanted", pos, "the nil fill runs exactly when n > b-1", "copyReturnValues decides about the nil padding with a comparison other than n > b-1: a caller that wants exactly one value more than the callee returned gets whatever is in the callee's next register instead of nil (`local k, v = next(t); return k` … `local a, b = f()` sees v in b)")
+}
+
+// ruleRaiseErrorFormats: C05f. RaiseError(format, args...) formats only when there are arguments: many
+// callers pass a finished message as the format (assert's message, err.Error(), the cancellation reason),
+// and a '%' in it must arrive unchanged at pcall. Neither RaiseError nor raiseError hands the format to a
+// printf-style function on a path where len(args) > 0 has not been established.
+func ruleRaiseErrorFormats(c *Ctx) {
+	const R = "R05-raise"
+	p := c.P
+	n := 0
+	for _, name := range []string{"(*LState).RaiseError", "(*LState).raiseError"} {
+		fn := c.need(R, "lua", name)
+		if fn == nil {
+			continue
+		}
+		g := p.G(fn)
+		var format *ssa.Parameter
+		for _, pm := range fn.Params {
+			if b, ok := pm.Type().Underlying().(*types.Basic); ok && b.Info()&types.IsString != 0 {
+				format = pm
+			}
+		}
+		if format == nil {
+			continue
+		}
+		n++
+		var bad ssa.Instruction
+		allInstrs(fn, func(in ssa.Instruction) {
+			pk, nm, ok := stdCall(in)
+			if !ok || pk != "fmt" || !(strings.HasSuffix(nm, "printf") || strings.HasSuffix(nm, "Errorf")) {
+				return
+			}
+			cl := in.(*ssa.Call)
+			if len(cl.Call.Args) == 0 || cl.Call.Args[0] != ssa.Value(format) {
+				return
+			}
+			guarded := false
+			for _, cd := range g.expandAnd(g.CondsAtInstr(in)) {
+				b, ok := cd.V.(*ssa.BinOp)
+				if !ok {
+					continue
+				}
+				if lc, ok := stripConv(b.X).(*ssa.Call); ok {
+					if bi, ok := lc.Call.Value.(*ssa.Builtin); ok && bi.Name() == "len" {
+						k, isK := constInt(b.Y)
+						if isK && ((b.Op == token.GTR && k == 0 && cd.Sense) || (b.Op == token.NEQ && k == 0 && cd.Sense) || (b.Op == token.EQL && k == 0 && !cd.Sense) || (b.Op == token.GEQ && k == 1 && cd.Sense)) {
+							guarded = true
+						}
+					}
+				}
+			}
+			if !guarded && bad == nil {
+				bad = in
+			}
+		})
+		pos := p.pos(fn.Pos())
+		if bad != nil {
+			pos = p.ipos(bad)
+		}
+		c.Sites++
+		c.check(bad == nil, R, strings.TrimPrefix(name, "(*LState).")+":message-without-arguments-is-not-a-format", pos, "the message is formatted only under len(args) > 0", name+" runs the message through a printf-style function even when no arguments were given: a finished message passed as the format (assert(false, 'disk is 100% full'), L.RaiseError(err.Error())) reaches pcall with its '%' mangled (100%!f(MISSING)ull) — not the value that was raised")
+	}
+	if n == 0 {
+		c.und(R, "message-without-arguments-is-not-a-format", "-", "RaiseError/raiseError not found")
+	}
+}
+
+// ruleBaseFramePassedOn: C06f. callGFunction refuses a yield that would cross a Go frame (pcall, a
+// metamethod, an iterator, L.Call) by comparing with the base frame of the interpreter loop it runs in.
+// Every caller that has a base frame — the two loops and the CALL/TAILCALL handlers — hands exactly that
+// parameter on: a nil there switches the refusal off for that call path (`return coroutine.yield(...)` in
+// tail position under pcall then yields across pcall's Go frames).
+func ruleBaseFramePassedOn(c *Ctx) {
+	const R = "R06-killarg"
+	p := c.P
+	cg := c.need(R, "lua", "callGFunction")
+	if cg == nil {
+		return
+	}
+	n := 0
+	for _, fn := range p.srcFuncs {
+		if fn.Pkg == nil || fn.Pkg.Pkg.Path() != luaPath {
+			continue
+		}
+		calls := callsTo(fn, cg)
+		if len(calls) == 0 {
+			continue
+		}
+		var base *ssa.Parameter
+		for _, pm := range fn.Params {
+			if typeName(pm.Type()) == "callFrame" {
+				base = pm
+			}
+		}
+		if base == nil {
+			continue
+		}
+		for i, cl := range calls {
+			n++
+			c.Sites++
+			c.check(cl.Call.Args[2] == ssa.Value(base), R, fmt.Sprintf("%s:passes-its-base-frame#%d", fname(fn), i+1), p.ipos(cl), "callGFunction receives the caller's base frame", fname(fn)+" calls callGFunction with something other than its own base frame: the test that refuses a yield across a Go frame is switched off on this call path — a Lua function under pcall that does `return coroutine.yield(...)` yields with pcall's Go frames still live, the body keeps running while it is no longer the current thread")
+		}
+	}
+	if n < 3 {
+		c.und(R, "passes-its-base-frame", "-", fmt.Sprintf("only %d calls of callGFunction with a base frame in reach", n))
+	}
+}
+
+// ruleBulkWritesChecked: C12f. Every write into the registry's array is covered by a capacity check that
+// asks for at least the highest index written plus one — also the bulk ones: a copy() into
+// rg.array[a:h] needs checkSize(h) (or more) before it. A check that asks for one slot fewer never fires
+// at the boundary: the registry is neither grown nor reported as overflowing, the copy panics with a Go
+// slice-bounds error.
+func ruleBulkWritesChecked(c *Ctx) {
+	const R = "R12-grow"
+	p := c.P
+	arrF := p.Field("lua", "registry", "array")
+	n := 0
+	for _, fn := range p.srcFuncs {
+		if fn.Pkg == nil || fn.Pkg.Pkg.Path() != luaPath {
+			continue
+		}
+		var g *PCFG
+		k := 0
+		allInstrs(fn, func(in ssa.Instruction) {
+			cl, ok := in.(*ssa.Call)
+			if !ok {
+				return
+			}
+			bi, ok := cl.Call.Value.(*ssa.Builtin)
+			if !ok || bi.Name() != "copy" {
+				return
+			}
+			sl, ok := cl.Call.Args[0].(*ssa.Slice)
+			if !ok || sl.High == nil {
+				return
+			}
+			if _, isArr := loadsField(sl.X, arrF); !isArr {
+				return
+			}
+			if g == nil {
+				g = p.G(fn)
+			}
+			if !g.Live(in) {
+				return
+			}
+			n++
+			k++
+			lh := lin(sl.High)
+			covered := false
+			allInstrs(fn, func(x ssa.Instruction) {
+				b, ok := x.(*ssa.BinOp)
+				if !ok || b.Op != token.GTR {
+					return
+				}
+				cc, ok := stripConv(b.Y).(*ssa.Call)
+				if !ok {
+					return
+				}
+				if cb, ok := cc.Call.Value.(*ssa.Builtin); !ok || cb.Name() != "cap" {
+					return
+				}
+				if _, isArr := loadsField(cc.Call.Args[0], arrF); !isArr {
+					return
+				}
+				if !g.BlockDom(x.Block(), in.Block()) {
+					return
+				}
+				lr := lin(b.X)
+				if sameTerms(lr, lh) == 1 && lr.K >= lh.K {
+					covered = true
+				}
+			})
+			c.Sites++
+			c.check(covered, R, fmt.Sprintf("%s:bulk-write-within-the-checked-size#%d", fname(fn), k), p.ipos(in), "a capacity check for at least the upper bound of the copy dominates it", fname(fn)+" copies into the registry's array up to an index that no preceding capacity check asks for: at the moment the top equals the capacity the registry is neither grown nor reported as full — a Go slice-bounds panic instead of growth (growable registry) or of the catchable 'registry overflow'")
+		})
+	}
+	if n == 0 {
+		c.okT(R, "bulk-write-within-the-checked-size", "-", "no copy() into the registry's array in the package")
+	}
+}
+
+// ruleFreeAllOnlyOnClose: C13f. A thread's call-frame segments go back to the shared pool only when the
+// state is closed. A coroutine that died of an error keeps its frames: debug.traceback(co), getinfo and
+// getlocal on the dead thread — and the traceback the wrap error path builds right after kill() — still
+// read them. Releasing them at thread death hands memory that is still read to whichever state takes a
+// segment next (another state's frames show up in the traceback; a data race between goroutines).
+func ruleFreeAllOnlyOnClose(c *Ctx) {
+	const R = "R13-poolrelease"
+	p := c.P
+	n := 0
+	var bad ssa.Instruction
+	who := ""
+	for _, fn := range p.srcFuncs {
+		if fn.Pkg == nil || fn.Pkg.Pkg.Path() != luaPath {
+			continue
+		}
+		allInstrs(fn, func(in ssa.Instruction) {
+			cc := callOf(in)
+			if cc == nil {
+				return
+			}
+			name := ""
+			if cc.IsInvoke() {
+				name = cc.Method.Name()
+			} else if sc := cc.StaticCallee(); sc != nil && sc.Signature.Recv() != nil {
+				name = sc.Name()
+			}
+			if name != "FreeAll" {
+				return
+			}
+			if rn := recvNamed(fn); rn != "" && fn.Name() == "FreeAll" {
+				return // an implementation delegating to another
+			}
+			n++
+			if !(recvNamed(fn) == "LState" && fn.Name() == "Close") && bad == nil {
+				bad, who = in, fname(fn)
+			}
+		})
+	}
+	pos := "-"
+	if bad != nil {
+		pos = p.ipos(bad)
+	}
+	c.Sites++
+	c.check(n > 0 && bad == nil, R, "FreeAll:only-when-the-state-is-closed", pos, fmt.Sprintf("%d release(s) of a whole call stack, all in LState.Close", n), who+" gives a thread's call-frame segments back to the shared pool outside LState.Close: a dead coroutine's frames are still read afterwards (debug.traceback(co), the traceback of a wrapped coroutine's error), and the next state that takes a segment overwrites them")
+}
+
+// ruleRound6Fixes: guards of F114–F116.
+func ruleRegisterModuleAdds(c *Ctx) {
+	const R = "R20-order"
+	p := c.P
+	// F114: RegisterModule adds its functions also when the module table exists already
+	if fn := c.need(R, "lua", "(*LState).RegisterModule"); fn != nil {
+		rs := p.Fn("lua", "(*LTable).RawSetString")
+		reach := reachGiven(fn, func(v ssa.Value) (aval, bool) {
+			if ex, ok := v.(*ssa.Extract); ok && ex.Index == 1 {
+				if ta, ok := ex.Tuple.(*ssa.TypeAssert); ok && typeName(ta.AssertedType) == "LTable" {
+					return aBool(true), true
+				}
+			}
+			return aval{}, false
+		}, p.isNoReturnCall)
+		adds := false
+		for _, cl := range callsTo(fn, rs) {
+			if reach[cl] {
+				adds = true
+			}
+		}
+		c.Sites++
+		c.check(adds, R, "RegisterModule:adds-functions-to-an-existing-table", p.pos(fn.Pos()), "with the module table already present the functions are still stored into it", "RegisterModule returns an existing module table without adding the functions it was given: a second registration for the same name (a host extending a module in two steps) silently adds nothing")
+	}
+	// F115: require reads the searchers from package.loaders as it is now
+	if fn := c.need(R, "lua", "loRequire"); fn != nil {
+		fromPackage, fromRegistry := false, false
+		allInstrs(fn, func(in ssa.Instruction) {
+			cl, ok := in.(*ssa.Call)
+			if !ok {
+				return
+			}
+			for _, a := range cl.Call.Args {
+				if s, ok := constStr(a); ok {
+					if s == "loaders" {
+						fromPackage = true
+					}
+					if s == "_LOADERS" {
+						fromRegistry = true
+					}
+				}
+			}
+		})
+		c.Sites++
+		c.check(fromPackage && !fromRegistry, R, "loRequire:searchers-from-package.loaders", p.pos(fn.Pos()), "the list of searchers is the loaders field of the package table", "require takes its searchers from the registry entry set when the package library was opened: a script that replaces package.loaders is ignored")
+	}
+}
+
+// ruleYieldHandOver: F116. switchToParentThread (a) refuses a yield the resumer has no room for before
+// it changes CurrentThread (the raising call precedes the store on the yield path), and (b) marks a
+// finishing thread dead before it pushes anything onto the resumer's registry (a push that overflows
+// must not leave the thread alive with its hand-over half done).
+func ruleYieldHandOver(c *Ctx) {
+	const R = "R06-killarg"
+	p := c.P
+	fn := c.need(R, "lua", "switchToParentThread")
+	if fn == nil {
+		return
+	}
+	g := p.G(fn)
+	p.computeNoReturn()
+	curF := p.Field("lua", "Global", "CurrentThread")
+	kill := p.Fn("lua", "(*LState).kill")
+	push := p.Fn("lua", "(*LState).Push")
+	xmove := p.Fn("lua", "(*LState).XMoveTo")
+	var curStore ssa.Instruction
+	allInstrs(fn, func(in ssa.Instruction) {
+		if _, ok := isFieldStore(in, curF); ok {
+			curStore = in
+		}
+	})
+	if curStore == nil {
+		c.und(R, "switchToParentThread:hand-over-order", p.pos(fn.Pos()), "the store of CurrentThread was not found")
+		return
+	}
+	// (a) a no-return call under a condition that involves the registry's capacity dominates the store
+	roomChecked := false
+	allInstrs(fn, func(in ssa.Instruction) {
+		if !p.isNoReturnCall(in) || g.Dominates(curStore, in) {
+			return // (a refusal that comes after the switch is too late)
+		}
+		for _, cd := range g.expandAnd(g.CondsAtInstr(in)) {
+			var dep func(v ssa.Value, d int) bool
+			dep = func(v ssa.Value, d int) bool {
+				if d > 4 {
+					return false
+				}
+				if cl, ok := v.(*ssa.Call); ok {
+					if sc := cl.Call.StaticCallee(); sc != nil && recvNamed(sc) == "registry" {
+						return true
+					}
+					return false
+				}
+				if x, ok := v.(ssa.Instruction); ok {
+					for _, op := range x.Operands(nil) {
+						if *op != nil && dep(*op, d+1) {
+							return true
+						}
+					}
+				}
+				return false
+			}
+			if dep(cd.V, 0) {
+				roomChecked = true
+			}
+		}
+	})
+	c.Sites++
+	c.check(roomChecked, R, "switchToParentThread:room-checked-before-the-switch", p.ipos(curStore), "a raising test of the resumer's registry precedes the store of CurrentThread", "switchToParentThread switches the current thread before it knows that the resumer can take the yielded values: when they do not fit, the overflow is raised half-way — the resumer catches 'registry overflow', the coroutine stays suspended with the same yield pending and delivers it again on the next resume")
+	// (b) every push onto the parent is preceded by kill() on the paths where kill is requested
+	okc := true
+	for _, cl := range append(callsTo(fn, push), callsTo(fn, xmove)...) {
+		// from the entry to this call, a path that avoids the kill call while the kill flag is true?
+		killed := false
+		for _, kc := range callsTo(fn, kill) {
+			if g.BlockDom(kc.Block().Preds[0], cl.Block()) || kc.Block() == cl.Block() {
+				killed = true
+			}
+		}
+		if !killed {
+			okc = false
+		}
+	}
+	c.Sites++
+	c.check(okc && len(callsTo(fn, kill)) > 0, R, "switchToParentThread:finished-thread-dead-before-its-results-move", p.pos(fn.Pos()), "the kill test comes before every push onto the resumer", "switchToParentThread hands the results of a finishing thread over before it marks the thread dead: when the resumer's registry overflows during the hand-over the thread stays alive ('suspended') although its body has returned or failed")
 }
